@@ -24,7 +24,7 @@ from ..common import rng_for, b2j
 
 LEVEL = "exploration"
 SHARDS = {"quick": 8, "thorough": 16}
-REQUIRED = ("direction_ladder_histories", "construct_probes_judged", "aba_same_process_steps", "definitions_probed", "cache_hits_observed", "cache_rewrites_observed", "same_length_variant_switches",
+REQUIRED = ("seeded_cookieless_cache_situations", "direction_ladder_histories", "construct_probes_judged", "aba_same_process_steps", "definitions_probed", "cache_hits_observed", "cache_rewrites_observed", "same_length_variant_switches",
             "stale_pyc_situations", "orphan_pyc_situations", "seeded_foreign_cache_situations", "same_process_redefinitions",
             "bytecode_on_definitions", "bytecode_off_definitions", "earlier_classes_reprobed", "option_only_switches")
 MIN_NONTRIVIAL = 20
@@ -71,6 +71,10 @@ def designed_variants(rng):
     out.append(V("i1i2-unpackonly", fam_of([I("a", 1), I("b", 2)]), {"generate_for_pack": False}, rng))
     out.append(V("i2i1-packonly", fam_of([I("a", 2), I("b", 1)]), {"generate_for_unpack": False}, rng))
     out.append(V("i1i2-packonly", fam_of([I("a", 1), I("b", 2)]), {"generate_for_unpack": False}, rng))
+    # twins whose generated texts differ only by patterns that a position-weighted checksum of the text cannot see
+    # (the names swap places: every occurrence changes by +1, -2, +1 on three consecutive bytes)
+    out.append(V("aca1bab2", fam_of([I("aca", 1), I("bab", 2)]), {}, rng))
+    out.append(V("bab1aca2", fam_of([I("bab", 1), I("aca", 2)]), {}, rng))
     def described(impl):
         return fam_of([dict(I("a", 1), describe={"k": "alias", "of": "b", "impl": impl}),
                        {"name": "b", "t": "data", "mode": "dyn", "size": {"form": "field", "e": ["f", "a"]}}])
@@ -78,7 +82,7 @@ def designed_variants(rng):
     out.append(V("desc-plain", described("plain"), {}, rng))         # ... and without one
     for v in out:
         v.kind = "designed"
-    twins = {"desc-auto": "desc-plain", "i1i2": "i2i1", "i1d2": "d1i2", "i2i1-unpackonly": "i1i2-unpackonly", "i2i1-packonly": "i1i2-packonly"}
+    twins = {"aca1bab2": "bab1aca2", "desc-auto": "desc-plain", "i1i2": "i2i1", "i1d2": "d1i2", "i2i1-unpackonly": "i1i2-unpackonly", "i2i1-packonly": "i1i2-packonly"}
     for a, b in twins.items():
         for v in out:
             if v.tag == a:
@@ -212,12 +216,19 @@ def run_history(run, rng, pool, scratch, hid, sources, nsteps):
                         run.count("stale_pyc_situations")
                 elif r < 0.6:
                     other = rng.choice([u for u in pool if u.tag != v.tag])
+                    if getattr(v, "twin", None) and rng.random() < 0.4:
+                        other = by_tag[v.twin]
                     txt = generated_source_of(other, scratch, sources)
                     if txt:
+                        tamper = "seed-foreign:%s" % other.tag
+                        if rng.random() < 0.35:
+                            # a module left by something that did not stamp it (no cookie line at all)
+                            txt = "".join(l for l in txt.splitlines(True) if "BISTURI_PACKET_COOKIE" not in l)
+                            tamper = "seed-foreign-without-cookie:%s" % other.tag
+                            run.count("seeded_cookieless_cache_situations")
                         os.makedirs(procs.cache_dir(workdir), exist_ok=True)
                         with open(cf, "w") as f:
                             f.write(txt)
-                        tamper = "seed-foreign:%s" % other.tag
                         run.count("seeded_foreign_cache_situations")
                 elif r < 0.65:
                     import shutil
